@@ -652,7 +652,53 @@ def rule_hunted_industrial(ctx: Ctx) -> None:
            "the head keeps its place against same-instant arrivals")
 
 
+def rule_sized_collaborator_defaults(ctx: Ctx) -> None:
+    """C08-3: a queue policy handed to a component is the one that orders its queue.  `policy or FIFOQueue()` is not a None test: every
+    queue policy defines `__len__`, a fresh (empty) policy object is falsy, and the expression silently replaces it by the default.  For
+    every constructor in components/: a parameter whose class (by annotation, or by the class of the default next to it) — or any subclass
+    of it — defines `__len__` or `__bool__` is never defaulted with `or`."""
+    prog = ctx.prog
+    sized: dict[str, bool] = {}
+
+    def is_sized(cname: str) -> bool:
+        if cname not in sized:
+            sized[cname] = False
+            for c in prog.all_classes("happysimulator/"):
+                if c.name == cname or prog.is_subclass(c, cname):
+                    if any(m in c.methods for m in ("__len__", "__bool__")):
+                        sized[cname] = True
+                        break
+        return sized[cname]
+    n = 0
+    for fn in prog.all_functions("happysimulator/components/"):
+        if fn.name not in ("__init__", "__post_init__") or fn.cls is None:
+            continue
+        ann = {}
+        for a in fn.node.args.args + fn.node.args.kwonlyargs:
+            if a.annotation is not None:
+                ann[a.arg] = {x.id for x in ast.walk(a.annotation) if isinstance(x, ast.Name)} | {x.attr for x in ast.walk(a.annotation) if isinstance(x, ast.Attribute)}
+        for x in walk_scope(fn.node, include_root=False):
+            if isinstance(x, ast.BoolOp) and isinstance(x.op, ast.Or) and isinstance(x.values[0], ast.Name) and x.values[0].id in fn.params() and isinstance(x.values[1], ast.Call):
+                pname = x.values[0].id
+                cands = set(ann.get(pname, set())) | {(path_of(x.values[1].func) or "").split(".")[-1]}
+                hit = sorted(c_ for c_ in cands if c_ and c_[:1].isupper() and is_sized(c_))
+                if hit:
+                    n += 1
+                    ctx.ob("C08-3", "G7", fn, x, False, f"{fn.qual}: `{unparse(x)[:60]}` discards a supplied `{pname}` whenever it is falsy — {hit} define __len__/__bool__, so a fresh, empty object is replaced by the default; use `is not None`")
+    # the pattern must stay absent; the instance floor is the three repaired constructors, recognised by their `is not None` spelling
+    ok_sites = 0
+    for fn in prog.all_functions("happysimulator/components/"):
+        if fn.name == "__init__" and fn.cls is not None:
+            for x in walk_scope(fn.node, include_root=False):
+                if isinstance(x, ast.IfExp) and isinstance(x.body, ast.Name) and x.body.id in fn.params() and {f.sig for f in atoms(x.test, True)} == {("isnot", x.body.id, "None")} \
+                        and isinstance(x.orelse, ast.Call) and is_sized((path_of(x.orelse.func) or "").split(".")[-1]):
+                    ok_sites += 1
+                    ctx.ob("C08-3", "G7", fn, x, True, f"{fn.qual}: `{unparse(x)[:70]}` keeps a supplied (possibly empty) object")
+    need(ok_sites + n >= 3, f"C08-3: expected >= 3 constructors defaulting a sized collaborator, found {ok_sites + n}")
+
+
 def run(ctx: Ctx) -> None:
+    ctx.guarded(rule_sized_collaborator_defaults)
     ctx.guarded(rule_hunted_industrial)
     ctx.guarded(rule_policy_contract)
     ctx.guarded(rule_ordering)
@@ -667,6 +713,7 @@ CODEL = QPS + "codel.py"
 DEADL = QPS + "deadline_queue.py"
 FAIR = QPS + "fair_queue.py"
 MUTANTS = [
+    ("shifted-server-policy-or-default", SHIFT, "policy=policy if policy is not None else FIFOQueue()", "policy=policy or FIFOQueue()", "C08-3"),
     ("shifted-server-first-item-keeps-t0-capacity", SHIFT, "            self._current_capacity = self.schedule.capacity_at(self.now.to_seconds())\n            next_event = self._schedule_next_shift()", "            next_event = self._schedule_next_shift()", "C08-7"),
     ("breakdown-repair-does-not-notify", "happysimulator/components/industrial/breakdown.py", "                events.append(QueueNotifyEvent(time=self.now, target=driver, queue_entity=queue))\n", "                pass\n", "C08-7"),
     ("pooled-handoff-not-reserved", POOLED, "            self._handed_off.add(handoff)\n", "", "C08-1"),
